@@ -9,7 +9,7 @@ from .. import cat, cogcat, rtools
 from ..strat import uni, logu, pos, gamma_gt1, geometry
 
 META = dict(
-    technique='Hypothesis-generated parameters; discontinuities located by bisection on the public call at t and t(1+-1e-4); jump conditions as oracle',
+    technique='Hypothesis-generated parameters; discontinuities located by bisection on the public call at t and t(1+-1e-4); jump conditions as oracle; coverage-guided supplement: the same strategy and oracle driven by atheris/libFuzzer through Hypothesis fuzz_one_input (obligations *-atheris)',
     rule='cases = (problem with a discontinuity, admissible parameters, time); the discontinuity is located from the returned fields by bisection '
          '(to 2^-46 of the bracket) at three times, its speed is the centred difference, states are read at the bracket ends; oracle = mass, momentum, '
          'total-energy flux differences in the frame of the discontinuity (total stress p - s_dev for elastic-plastic waves; [p]=[u]=0 at contacts; '
